@@ -195,7 +195,10 @@ class LangServer:
         self.root_path = path_from_uri(
             params.get("rootUri") or params.get("rootPath") or ""
         )
-        self.source_dirs.add(self.root_path)
+        # The root is the default source directory, not an addition to the ones
+        # given with --source_dirs (the configuration file already works this way)
+        if not self.source_dirs:
+            self.source_dirs.add(self.root_path)
 
         self._load_config_file()
         update_recursion_limit(self.recursion_limit)
